@@ -9,7 +9,7 @@
 EXTENDS Naturals, Sequences, TLC, Json
 CONSTANT MaxOps
 VARIABLES m, hist
-WriteOps == {"optcomp", "optval", "write", "writeF", "endchunk", "closeF", "close", "read", "clear"}
+WriteOps == {"optcomp", "optval", "write", "writeF", "endchunk", "endchunkF", "closeF", "close", "read", "clear"}
 ReadOps  == {"optcomp", "optval", "read", "readF", "validate", "validateF", "write", "close", "clear"}
 Init == m \in {"write", "read"} /\ hist = <<>>
 Next == /\ Len(hist) < MaxOps
@@ -19,4 +19,10 @@ Next == /\ Len(hist) < MaxOps
         /\ UNCHANGED m
 Spec == Init /\ [][Next]_<<m, hist>>
 Emit == Len(hist) = MaxOps => PrintT(<<"BEH", ToJson([mode |-> m, ops |-> hist])>>)
+\* the recovery shape, longer: a call with a fault, the error cleared at once, the context used on, and a close at the end
+FaultOps == {"writeF", "endchunkF", "closeF", "readF", "validateF"}
+EmitRecover == (/\ m = "write" /\ Len(hist) >= 3 /\ hist[Len(hist)] = "close"
+                /\ \E i \in 1..(Len(hist) - 2) : hist[i] \in FaultOps /\ hist[i + 1] = "clear"
+                /\ \A i \in 1..(Len(hist) - 1) : hist[i] \notin {"close", "closeF", "read", "optval"})
+               => PrintT(<<"BEH", ToJson([mode |-> m, ops |-> hist])>>)
 =============================================================================
